@@ -17,10 +17,11 @@ pub fn prop() -> Prop {
             "the font table is extracted from /repo/src/mono_font/generated at build time",
         ],
         subs: vec![
-            Sub::tape("primitives", 40, 240_000, 3_600_000, |d, cx| run(d, cx, 0)),
-            Sub::tape("polylines", 40, 50_000, 750_000, |d, cx| run(d, cx, 1)),
-            Sub::tape("images", 120, 30_000, 450_000, |d, cx| run(d, cx, 2)),
-            Sub::tape("text_random", 60, 100_000, 1_500_000, |d, cx| run(d, cx, 3)),
+            Sub::tape("primitives", 40, 240_000, 12_000_000, |d, cx| run(d, cx, 0)),
+            Sub::tape("primitives_large", 40, 2_000, 100_000, |d, cx| run(d, cx, 4)),
+            Sub::tape("polylines", 40, 50_000, 2_500_000, |d, cx| run(d, cx, 1)),
+            Sub::tape("images", 120, 30_000, 1_500_000, |d, cx| run(d, cx, 2)),
+            Sub::tape("text_random", 60, 100_000, 5_000_000, |d, cx| run(d, cx, 3)),
             Sub::enumerate("fonts_matrix", fonts_matrix),
         ],
     }
@@ -29,6 +30,7 @@ pub fn prop() -> Prop {
 fn run(d: &mut Dec, cx: &mut Cx, group: u32) -> Res {
     let kind = match group {
         0 => d.u(0, 7),
+        4 => 100 + d.u(0, 7),
         1 => 8,
         2 => 9,
         _ => 10,
@@ -43,7 +45,16 @@ fn run(d: &mut Dec, cx: &mut Cx, group: u32) -> Res {
 fn tape_case<C: ImgCol>(d: &mut Dec, cx: &mut Cx, kind: u32) -> Res {
     let big = d.ratio(1, 5);
     let dom = ItemDom { r: 40, max: if big { 40 } else { 16 }, max_width: if d.ratio(1, 8) { 40 } else { 12 }, dotted: true, text_len: 14 };
-    let item = gen_item::<C>(d, kind, dom);
+    // kinds >= 100: styled primitives of 100..=400 px (sub-check "primitives_large")
+    let (item, kind) = if kind >= 100 {
+        let mut st = crate::gen::style::<C>(d, 60);
+        if d.ratio(1, 6) {
+            st.stroke_style = embedded_graphics::primitives::StrokeStyle::Dotted;
+        }
+        (Item::Styled(crate::gen::large_shape(d, kind - 100, 100, 400), st), kind - 100)
+    } else {
+        (gen_item::<C>(d, kind, dom), kind)
+    };
     cx.describe(|| item.desc());
     cx.class(KIND_NAMES[kind as usize]);
     let n = check_item(&item)?;
